@@ -50,7 +50,14 @@ def make (spec0):
         spec = gen.fam_ground (rng, media = med)
     if rng.random () < 0.1:
         spec = gen.curve_spec (rng) or spec
-    gen.add_sources (rng, spec, nmax = 4)
+    halfloop = spec0 ['i'] % 10 == 6
+    if halfloop:
+        # an arc standing on the ground plane with both feet, fed at a foot (either one) or up the arc
+        from pmv.props import c03
+        spec = c03.make_half_loop (dict (spec0))
+        spec ['feeds'] = []
+    else:
+        gen.add_sources (rng, spec, nmax = 4)
     # in-phase arrays: several sources with exactly the same voltage (or all but one)
     re = np.random.default_rng ([spec0 ['seed'], 73, spec0 ['i']])
     if len (spec ['src']) > 1 and re.random () < 0.3:
@@ -257,6 +264,30 @@ def check (spec0):
             P6 += pp
             judge ('magnitude-phase.power', abs (s6.power - pp) / (0.5 * abs (s6.voltage) * abs (m6.current [s6.idx]) + 1e-300), 1e-12, 'source given as negative magnitude and phase: power %r, 1/2 Re (V I*) = %r' % (s6.power, pp))
         judge ('magnitude-phase.power', abs (m6.power - P6) / (abs (P6) + 1e-300), 1e-9, 'input power %r, sum of the sources %r' % (m6.power, P6))
+    # (g) one Excitation object handed over for two pulses: refused, or two sources of that voltage - never a model
+    # whose listed sources and whose right-hand side disagree
+    N7 = len (m.pulses)
+    if src and N7 >= 3:
+        m7 = gen.build (spec)
+        m7.sources = []
+        i0 = src [0][0]
+        i1 = (i0 + 1 + (int (abs (src [0][1]) * 1e6) % (N7 - 1))) % N7
+        e7 = MM.Excitation (src [0][1])
+        m7.register_source (e7, i0)
+        mon ['shared-excitation'] = 1
+        try:
+            m7.register_source (e7, i1)
+            refused = False
+        except Exception:
+            refused = True
+        if not refused:
+            observe.solve (m7)
+            m8 = gen.build (spec)
+            m8.sources = []
+            m8.register_source (MM.Excitation (src [0][1]), i0)
+            m8.register_source (MM.Excitation (src [0][1]), i1)
+            observe.solve (m8)
+            judge ('shared-excitation', rel (np.array (m7.current), np.array (m8.current)), tol, 'one Excitation object registered for pulses %d and %d is accepted: currents differ from two sources of that voltage (sources listed on pulses %s)' % (i0 + 1, i1 + 1, [x.idx + 1 for x in m7.sources]))
     sig = gen.signature (spec, m, extra = ['feeds' + ''.join (sorted (kinds)), 'valid%d' % ok])
     nontrivial = len (spec ['src']) > 1 or ('g' in kinds) or ('j' in kinds) or abs (c.imag) > 0
     return dict ( status = 'violation' if viol else 'held', sig = sig, nontrivial = bool (nontrivial)
